@@ -79,8 +79,8 @@ theorem invS_frame {N : Nat} {s s' : State} (h : InvS N s)
     obtain ⟨h1, h2⟩ := h.msg_cmt_a t l d prev pt es c (hm _ hmem rfl)
     rw [htl]; exact ⟨h1, cmt_frame htl hak (Nat.le_refl _) h2⟩
   · intro t l d k kt c pfx hmem
-    obtain ⟨h1, h2⟩ := h.msg_cmt_s t l d k kt c pfx (hm _ hmem rfl)
-    rw [htl]; exact ⟨h1, cmt_frame htl hak (Nat.le_refl _) h2⟩
+    obtain ⟨h1, h2, h3⟩ := h.msg_cmt_s t l d k kt c pfx (hm _ hmem rfl)
+    rw [htl]; exact ⟨h1, cmt_frame htl hak (Nat.le_refl _) h2, cmt_frame htl hak (Nat.le_refl _) h3⟩
 
 /-- The `commit`/`matchIdx` obligations of `invS_frame` when those fields are unchanged too. -/
 theorem invS_frame' {N : Nat} {s s' : State} (h : InvS N s)
@@ -252,7 +252,8 @@ theorem invS_addMsg {N : Nat} {s : State} {m : Msg} (h : InvS N s)
     (ha : ∀ t l d prev pt es c, m = Msg.append t l d prev pt es c →
       c < (s.g.termLog t).length ∧ Cmt N s t ((s.g.termLog t).take (c + 1)))
     (hsn : ∀ t l d k kt c pfx, m = Msg.snapshot t l d k kt c pfx →
-      c < (s.g.termLog t).length ∧ Cmt N s t ((s.g.termLog t).take (c + 1))) :
+      c < (s.g.termLog t).length ∧ Cmt N s t ((s.g.termLog t).take (c + 1)) ∧
+      Cmt N s t ((s.g.termLog t).take (k + 1))) :
     InvS N { s with msgs := s.msgs ++ [m] } := by
   have hbl : ∀ t i, Blocked N s t i → Blocked N { s with msgs := s.msgs ++ [m] } t i :=
     fun t i hb => hb
@@ -270,36 +271,47 @@ theorem invS_addMsg {N : Nat} {s : State} {m : Msg} (h : InvS N s)
     · exact h.msg_cmt_s t l d k kt c pfx hmem
     · simp at hmem; exact hsn t l d k kt c pfx hmem.symm
 
-theorem invS_sendAppend {N s s' n dst prev k} (h : InvS N s) (hl : InvL N s)
-    (hs : step N s (.sendAppend n dst prev k) = some s') : InvS N s' := by
+/-- A prefix of a node's committed prefix is committed. -/
+theorem cmt_of_le_commit {N : Nat} {s : State} (hl : InvL N s) (h : InvS N s) (n c : Nat)
+    (hc : c ≤ (s.nodes n).commit) : Cmt N s (s.nodes n).term ((s.nodes n).log.take (c + 1)) := by
+  have hcl := h.cm_lt n
+  refine cmt_prefix (h.C1 n) ?_ (take_ne_nil_of_lt (by omega)) ?_
+  · have : (s.nodes n).log.take (c + 1) = ((s.nodes n).log.take ((s.nodes n).commit + 1)).take (c + 1) := by
+      rw [List.take_take]; congr 1; omega
+    rw [this]; exact List.take_prefix _ _
+  · rw [List.getElem?_take]; simp; exact hl.log_sent n
+
+theorem invS_sendAppend {N s s' n dst prev k c} (h : InvS N s) (hl : InvL N s)
+    (hs : step N s (.sendAppend n dst prev k c) = some s') : InvS N s' := by
   simp only [step] at hs
   split at hs
   · rename_i hg
-    obtain ⟨_, _, hrole, _⟩ := hg
+    obtain ⟨_, _, hrole, _, hcc⟩ := hg
     injection hs with hs; subst hs
     have hlog := hl.ldr_log n hrole
     refine invS_addMsg h (fun _ _ _ _ hm => by cases hm) ?_ (fun _ _ _ _ _ _ _ hm => by cases hm)
-    intro t l d p pt es c hm
+    intro t l d p pt es c' hm
     injection hm with h1 h2 h3 h4 h5 h6 h7
     subst h1 h7
     rw [← hlog]
-    exact ⟨h.cm_lt n, h.C1 n⟩
+    exact ⟨by have := h.cm_lt n; omega, cmt_of_le_commit hl h n c hcc⟩
   · cases hs
 
-theorem invS_sendSnapshot {N s s' n dst k} (h : InvS N s) (hl : InvL N s)
-    (hs : step N s (.sendSnapshot n dst k) = some s') : InvS N s' := by
+theorem invS_sendSnapshot {N s s' n dst k c} (h : InvS N s) (hl : InvL N s) (hA : InvA s)
+    (hs : step N s (.sendSnapshot n dst k c) = some s') : InvS N s' := by
   simp only [step] at hs
   split at hs
   · rename_i hg
-    obtain ⟨_, _, hrole, _⟩ := hg
+    obtain ⟨_, _, hrole, hka, _, hcc⟩ := hg
     injection hs with hs; subst hs
     have hlog := hl.ldr_log n hrole
     refine invS_addMsg h (fun _ _ _ _ hm => by cases hm) (fun _ _ _ _ _ _ _ hm => by cases hm) ?_
-    intro t l d kk kt c pfx hm
+    intro t l d kk kt c' pfx hm
     injection hm with h1 h2 h3 h4 h5 h6 h7
-    subst h1 h6
+    subst h1 h4 h6
     rw [← hlog]
-    exact ⟨h.cm_lt n, h.C1 n⟩
+    exact ⟨by have := h.cm_lt n; omega, cmt_of_le_commit hl h n c hcc,
+      cmt_of_le_commit hl h n k (Nat.le_trans hka (hA n))⟩
   · cases hs
 
 end PSO.Raft
@@ -536,10 +548,11 @@ theorem invS_extend {N : Nat} {s s' : State} {n t c : Nat} {L : List Entry}
     rw [hys, List.take_append_of_le_length (by omega)]
     exact ⟨by simp; omega, hcmt _ _ h2⟩
   · intro u l d k kt cc pfx hmem; rw [hmsgs] at hmem
-    obtain ⟨h1, h2⟩ := h.msg_cmt_s u l d k kt cc pfx hmem
+    obtain ⟨h1, h2, h3⟩ := h.msg_cmt_s u l d k kt cc pfx hmem
+    have hkl := (hl.msg_snap u l d k kt cc pfx hmem).1
     obtain ⟨ys, hys⟩ := hext u
-    rw [hys, List.take_append_of_le_length (by omega)]
-    exact ⟨by simp; omega, hcmt _ _ h2⟩
+    rw [hys, List.take_append_of_le_length (by omega), List.take_append_of_le_length (by omega)]
+    exact ⟨by simp; omega, hcmt _ _ h2, hcmt _ _ h3⟩
 
 end PSO.Raft
 
@@ -733,8 +746,8 @@ theorem invS_timeout_core {N : Nat} {s : State} {n : Nat} {dsts : List Nat} (h :
     obtain ⟨h1, h2⟩ := h.msg_cmt_a t l d prev pt es c (hmsg _ hmem (fun _ _ _ _ _ hh => by cases hh))
     exact ⟨h1, hcmt _ _ _ (Nat.le_refl _) h2⟩
   · intro t l d k kt c pfx hmem
-    obtain ⟨h1, h2⟩ := h.msg_cmt_s t l d k kt c pfx (hmsg _ hmem (fun _ _ _ _ _ hh => by cases hh))
-    exact ⟨h1, hcmt _ _ _ (Nat.le_refl _) h2⟩
+    obtain ⟨h1, h2, h3⟩ := h.msg_cmt_s t l d k kt c pfx (hmsg _ hmem (fun _ _ _ _ _ hh => by cases hh))
+    exact ⟨h1, hcmt _ _ _ (Nat.le_refl _) h2, hcmt _ _ _ (Nat.le_refl _) h3⟩
 
 theorem invS_timeout {N s s' n dsts} (h : InvS N s) (he : InvE N s) (hl : InvL N s)
     (hs : step N s (.timeout n dsts) = some s') : InvS N s' := by
@@ -1089,8 +1102,8 @@ theorem invS_setLog {N : Nat} {s s' : State} {n t a ldr : Nat} {newlog : List En
     · cases hm
   · intro u l d k kt c pfx hmem
     rcases hmsgs _ hmem rfl with hm | hm
-    · obtain ⟨h1, h2⟩ := h.msg_cmt_s u l d k kt c pfx hm
-      rw [htl]; exact ⟨h1, hcmt _ _ _ (Nat.le_refl _) h2⟩
+    · obtain ⟨h1, h2, h3⟩ := h.msg_cmt_s u l d k kt c pfx hm
+      rw [htl]; exact ⟨h1, hcmt _ _ _ (Nat.le_refl _) h2, hcmt _ _ _ (Nat.le_refl _) h3⟩
     · cases hm
 
 end PSO.Raft
@@ -1213,8 +1226,9 @@ theorem invS_recvSnapshot {N s s' n m} (h : InvS N s) (he : InvE N s) (hl : InvL
       · rename_i hnlt
         have hterm : (s.nodes dst).term ≤ t := by omega
         injection hs with hs; subst hs
-        obtain ⟨hk1, hk2, hk3, hk4, hk5⟩ := hl.msg_snap _ _ _ _ _ _ _ hmem
-        have hmc := h.msg_cmt_s _ _ _ _ _ _ _ hmem
+        obtain ⟨hk1, hk2, hk3, hk5⟩ := hl.msg_snap _ _ _ _ _ _ _ hmem
+        have hmc3 := h.msg_cmt_s _ _ _ _ _ _ _ hmem
+        have hmc : c < (s.g.termLog t).length ∧ Cmt N s t ((s.g.termLog t).take (c + 1)) := ⟨hmc3.1, hmc3.2.1⟩
         have htl_ne : s.g.termLog t ≠ [] := by intro hnil; rw [hnil] at hk1; simp at hk1
         have hmsgs : ∀ m ∈ s.msgs.erase (Msg.snapshot t ldr dst k kTerm c pfx) ++ [Msg.ack t dst ldr k], m.isVote = false →
             m ∈ s.msgs ∨ m = Msg.ack t dst ldr k := by
@@ -1259,8 +1273,18 @@ theorem invS_recvSnapshot {N s s' n m} (h : InvS N s) (he : InvE N s) (hl : InvL
             he hl h htl_ne hterm H1 hk1 H2 ?_
             (by simp) (by simp [adoptTerm_term hnlt]) (by simp) (fun k hk => by simp [setNode, hk]) hmsgs rfl rfl rfl
           simp only [setNode_nodes_self, adoptTerm_commit]
-          apply commit_step hl h hterm htl_ne H1 hk1 H2 hmc
-          exact hcase _
+          have hpl : pfx.length = k + 1 := by rw [hk2]; simp; omega
+          by_cases hle : (if (s.nodes dst).commit < c then max (s.nodes dst).commit (min c k) else (s.nodes dst).commit) ≤ k
+          · rw [Nat.max_eq_right hle]
+            refine ⟨by omega, ?_⟩
+            have : pfx.take (k + 1) = (s.g.termLog t).take (k + 1) := by
+              rw [hk2, List.take_take]; simp
+            rw [this]; exact hmc3.2.2
+          · rw [Nat.max_eq_left (by omega)]
+            apply commit_step hl h hterm htl_ne H1 hk1 H2 hmc
+            rcases hcase (s.nodes dst).commit with hc | hc
+            · exact Or.inl hc
+            · exfalso; rw [hc] at hle; exact hle (Nat.min_le_right _ _)
     · cases hs
   · cases hs
 
@@ -1308,14 +1332,14 @@ theorem invS_step {N : Nat} {s s' : State} {a : Action} (h : InvS N s) (he : Inv
   | recvReqVote n m => exact invS_recvReqVote h he hl hs
   | recvVote n m => exact invS_recvVote h he hl hs
   | clientAppend n cmd => exact invS_clientAppend h he hl hs
-  | sendAppend n dst prev k => exact invS_sendAppend h hl hs
+  | sendAppend n dst prev k c => exact invS_sendAppend h hl hs
   | recvAppend n m => exact invS_recvAppend h he hl hs
   | recvAck n m => exact invS_recvAck h hs
   | advanceCommit n i => exact invS_advanceCommit h he hl hs
   | stepDown n => exact invS_stepDown h hs
   | apply n => exact invS_apply h hs
   | observeTerm n t => exact invS_observeTerm h hs
-  | sendSnapshot n dst k => exact invS_sendSnapshot h hl hs
+  | sendSnapshot n dst k c => exact invS_sendSnapshot h hl hA hs
   | recvSnapshot n m => exact invS_recvSnapshot h he hl hA hs
   | lose m => exact invS_lose h hs
   | restart n c a => exact invS_restart h hl hs
